@@ -77,6 +77,17 @@ def build_config(c, kind, rng):
         g.lowers = [(u, "/lo")]
         g.prepop = [(u, "/lo")]
         g.watch = [u]
+    elif kind == "ovl_late":
+        # the lower layer's directory exists when the overlay is constructed, the write layer's directory does not yet
+        c.base("mem")
+        u = c.fs("base", 0)
+        c.op("createdir", vfx.ps(u, "lo"))
+        g.target = c.fs("ovl", 2, u, vfx.hexs("/up"), u, vfx.hexs("/lo"))
+        c.op("createdir", vfx.ps(u, "up"))
+        g.upper = (u, "/up")
+        g.lowers = [(u, "/lo")]
+        g.prepop = [(u, "/lo")]
+        g.watch = [u]
     elif kind == "alt_ovl":
         c.base("mem"); c.base("mem")
         a = c.fs("base", 0); b = c.fs("base", 1)
@@ -714,6 +725,49 @@ def dotted_name_cases(prefix, kinds):
         for w in g.watch:
             c.op("snap", w)
         cases.append(c)
+    return cases
+
+
+def neighbour_name_cases(prefix, kinds):
+    """a non-empty directory whose SIBLINGS' names extend its own by a character that sorts before, at or after the
+    separator ('docs.txt', 'docs-old', 'docs (copy)', 'docs+', 'docs0', 'docs~', the prefix 'doc'): emptiness tests,
+    listings, walks and whole-tree operations on 'docs' must see its children and only them"""
+    rng = random.Random(43)
+    cases = []
+    sib_files = ["docs.txt", "docs-old", "docs (copy)", "docs+", "docs0", "docs~", "doc", "docs!"]
+    for kind in kinds:
+        for order in (0, 1):
+            c = vfx.Case("%s_neighbours_%s_%d" % (prefix, kind, order))
+            g = build_config(c, kind, rng)
+            c.cfg = g
+            t = g.target
+            c.op("createdir", vfx.ps(t, "docs"))
+            write_file(c, t, "docs/readme", b"readme")
+            c.op("createdirall", vfx.ps(t, "docs/deep/er"))
+            write_file(c, t, "docs/deep/er/f", b"f")
+            for n in (sib_files if order == 0 else reversed(sib_files)):
+                write_file(c, t, n, n.encode())
+            c.op("createdir", vfx.ps(t, "docs.d"))
+            write_file(c, t, "docs.d/inner", b"inner")
+            c.op("createdir", vfx.ps(t, "docs-empty"))
+            c.op("snap", t)
+            c.first_snap = c.nops - 1
+            c.op("removedir", vfx.ps(t, "docs")); c.op("snap", t)                 # not empty: refused
+            c.op("removedir", vfx.ps(t, "docs.d")); c.op("removedir", vfx.ps(t, "docs/deep")); c.op("snap", t)
+            c.op("readdir", vfx.ps(t, "docs")); c.op("readdir", "%d:" % t); c.op("walkdir", vfx.ps(t, "docs")); c.op("walkdir", "%d:" % t)
+            c.op("removedir", vfx.ps(t, "docs-empty")); c.op("snap", t)
+            if order == 0:
+                c.op("copydir", vfx.ps(t, "docs"), vfx.ps(t, "docs2")); c.op("snap", t)
+                c.op("movedir", vfx.ps(t, "docs"), vfx.ps(t, "docs3")); c.op("snap", t)
+                c.op("removedirall", vfx.ps(t, "docs3")); c.op("snap", t)
+            else:
+                c.op("removedirall", vfx.ps(t, "docs")); c.op("snap", t)
+                for n in sib_files:
+                    c.op("exists", vfx.ps(t, n))
+                c.op("removefile", vfx.ps(t, "docs.d/inner")); c.op("removedir", vfx.ps(t, "docs.d")); c.op("snap", t)
+            for w in g.watch:
+                c.op("snap", w)
+            cases.append(c)
     return cases
 
 
